@@ -123,3 +123,34 @@ macro_rules! c05_decode_ref {
         std::mem::forget(v);
     }};
 }
+
+/// C06 / C07 / C08 share one body: any decoder on an arbitrary buffer of `$nb` bytes (the whole
+/// "file": sizes a caller can pass are bounded by the true length, so `size <= $nb`), cursor just
+/// behind the 8-byte header. C06: Kani's implicit panic/overflow/index/unwrap checks. C07: the
+/// reader counts stream operations and the unwinding assertions bound every loop. C08: allocator
+/// stubs (see common/alloc.rs) bound every request.
+#[macro_export]
+macro_rules! dec_any {
+    ($ty:ty, $nb:expr, $size:expr, $reader:expr, $after:expr) => {{
+        use mp4::{BoxHeader, Mp4Box, ReadBox, WriteBox};
+        let buf: [u8; $nb] = kani::any();
+        // `$size`: `any_size($nb)` (symbolic, <= buffer length) for table / fixed-layout decoders; a
+        // concrete value per harness for decoders that size a heap buffer from it (a heap object
+        // of symbolic size does not get through CBMC: DESIGN.md 2.2)
+        let size: u64 = $size;
+        kani::assume(size <= $nb as u64);
+        let mut r = ($reader)(&buf[..]);
+        match <$ty>::read_box(&mut r, size) {
+            Ok(v) => {
+                kani::cover!(true, "(opt) accepted");
+                std::mem::forget(v);
+            }
+            Err(e) => {
+                kani::cover!(true, "(opt) rejected");
+                std::mem::forget(e);
+            }
+        }
+        ($after)(&r, size);
+        kani::cover!(true, "decoder returned");
+    }};
+}
